@@ -18,7 +18,8 @@ Theorem C14_success_post : forall (H : str -> str) cfg s roots w c,
   (forall o, In o (td_outs t) -> exists x, ws_get (out_path t o) (w_ws (b_world b')) = PFile x) /\
   (null (td_cmd t) = false ->
      exists w0, w_ext w0 = w_ext (b_world b) /\ run_command s t w0 = Some (b_world b')) /\
-  (exists dh res, dep_hashes s b (td_deps t) = Some dh /\
+  (cfg_cache cfg = true ->        (* a disabled cache is not written (C13_cache_off_leaves_cache) *)
+   exists dh res, dep_hashes s b (td_deps t) = Some dh /\
                   rlookup (key_of H s t dh) (c_results (b_cache b')) = Some res).
 Proof. exact executed_post. Qed.
 Print Assumptions C14_success_post.
